@@ -265,6 +265,8 @@ func c02Body(c *ev.Ctx) {
 		}
 		runCases(r, fmt.Sprintf("F%d full DeletionMbuCircuit d=1 b=1", p), cases, c02Eval)
 	}
+	// every depth x batch-size set, defects in the last slot / top level
+	c02DimSweep(r, quick)
 	for _, d := range []int{1, 2} {
 		runCases(r, fmt.Sprintf("BN254 DeletionProof gadget, all states d=%d x menu", d), c02Menu(d, quick), c02Eval)
 	}
